@@ -94,6 +94,23 @@ class Seams:
         wxml.datetime = shim
         wpb.datetime = shim
         wpb.open = self.open_shim
+        # the interactive overwrite question (OverwriteExistingFile.ASK_USER_INPUT): `input` is looked up in the
+        # module namespace first, so a module attribute scripts the user's answer
+        import commonroad.common.writer.file_writer_interface as wi
+
+        self.wi = wi
+        self.answers = []  # scripted answers, consumed front to back
+        self.asked = 0
+        self._saved_input = (wi.__dict__.get("input"), wxml.__dict__.get("input"))
+
+        def scripted_input(prompt=""):
+            self.asked += 1
+            if not self.answers:
+                raise RuntimeError("the writer asked the user although no answer was scripted")
+            return self.answers.pop(0)
+
+        wi.input = scripted_input
+        wxml.input = scripted_input
 
     def remove(self):
         self.wxml.datetime, self.wpb.datetime, old_open = self._saved
@@ -101,6 +118,11 @@ class Seams:
             self.wpb.__dict__.pop("open", None)
         else:
             self.wpb.open = old_open
+        for mod, old in zip((self.wi, self.wxml), self._saved_input):
+            if old is None:
+                mod.__dict__.pop("input", None)
+            else:
+                mod.input = old
 
 
 def in_fork(fn):
